@@ -204,7 +204,7 @@ def model_time_ok(time):
 
 
 def run(ck):
-    ck.prepare_lean()
+    ck.prepare_lean(extra_targets=['MidoProofs.Props.C14b'])
     ck.run_corpus(oracle)
     mcases, texts, streams, reprs = gen(ck)
     mres = [r for part in pool_map(_msg_chunk, list(chunks(mcases, 500))) for r in part]
